@@ -329,7 +329,7 @@ class PW:
             v, found = self.ip.ns_lookup(self.ns, n.id, self.rel)
             if found:
                 return v
-            if n.id in ('float', 'int', 'round', 'max', 'min', 'abs', 'len', 'range'):
+            if n.id in ('float', 'int', 'round', 'max', 'min', 'abs', 'len', 'range', 'zip', 'enumerate', 'reversed', 'sorted', 'list', 'tuple'):
                 return Builtin(n.id)
             raise AnalysisError(f'{self.rel}:{n.lineno} unknown name {n.id}')
         if isinstance(n, ast.Attribute):
@@ -394,6 +394,12 @@ class PW:
                     return len(args[0])
                 if f.name == 'range':
                     return tuple(range(*args))
+                if f.name in ('zip', 'enumerate', 'reversed', 'sorted', 'list', 'tuple') and all(isinstance(a, (tuple, list, int)) for a in args) \
+                        and not any(isinstance(x, Aff) for a in args if isinstance(a, (tuple, list)) for x in a):
+                    try:
+                        return tuple({'zip': zip, 'enumerate': enumerate, 'reversed': reversed, 'sorted': sorted, 'list': list, 'tuple': tuple}[f.name](*args))
+                    except Exception as e:
+                        raise AnalysisError(f'{self.rel}:{n.lineno} {f.name}() failed: {e}')
                 if f.name in ('max', 'min') and not any(isinstance(a, Aff) and a.a != 0 for a in args):
                     vals = [a.b if isinstance(a, Aff) else frac(a) for a in args]
                     return Aff(0, max(vals) if f.name == 'max' else min(vals))
